@@ -106,6 +106,14 @@ func c13Case(c *Ctx) error {
 			}
 		}
 	}
+	// one history in three has an address with a balance beyond 2^64 and a lock on it that is unlocked in steps which
+	// leave exact multiples of 2^64
+	whaleStage := -1
+	if rng.Intn(3) == 0 {
+		whaleStage = 0
+		w.SetBalance("tt", balance.BalanceTypeToken, users[0].AddrString(), "", new(big.Int).Lsh(big.NewInt(1), 70))
+		c.Count("history_with_amounts_beyond_2^64")
+	}
 	init := w.Balances("tt", in)
 	nonce := uint64(1700000000000)
 	n := 12 + rng.Intn(19)
@@ -180,6 +188,9 @@ func c13Case(c *Ctx) error {
 			for _, b := range w.Balances("tt", in) {
 				if b.Addr == o.Addr && ((o.Fam == "token" && b.Kind == 43) || (o.Fam == "allowed" && b.Kind == 44 && b.Token == o.Tok)) {
 					bal = b.Amount.Int64()
+					if !b.Amount.IsInt64() || bal > 1<<40 {
+						bal = 250 // an address with a balance beyond 2^64: the random requests stay small
+					}
 				}
 			}
 			switch x := rng.Intn(10); {
@@ -194,6 +205,14 @@ func c13Case(c *Ctx) error {
 			default:
 				o.Amt = strconv.FormatInt(int64(rng.Intn(int(bal)+2)), 10)
 			}
+		}
+		whaleOp := false
+		if whaleStage >= 0 && whaleStage < 4 && rng.Intn(3) == 0 {
+			two64 := new(big.Int).Lsh(big.NewInt(1), 64)
+			amt := []*big.Int{new(big.Int).Add(new(big.Int).Lsh(big.NewInt(1), 65), big.NewInt(7)), big.NewInt(7), two64, two64}[whaleStage]
+			o = c13Op{Unlock: whaleStage > 0, Fam: "token", Sender: w.AdminAcc.N(), ID: 390, Addr: users[0].N(), Tok: 1, Amt: amt.String()}
+			whaleStage++
+			whaleOp = true
 		}
 		reqOf := func(o c13Op) (string, string) {
 			req := &fpb.BalanceLockRequest{Id: c13IDStr(o.ID), Address: accs[o.Addr].AddrString(), Token: c13Toks[o.Tok], Amount: o.Amt, Reason: "r"}
@@ -249,6 +268,15 @@ func c13Case(c *Ctx) error {
 			}
 
 			return nil
+		}
+		if whaleOp {
+			fn, data := reqOf(o)
+			msg := tokenRun(w, "tt", accs[o.Sender], &nonce, fn, data)
+			if err := record(o, msg, obsNow()); err != nil {
+				return err
+			}
+			delete(known, o.ID) // the random requests below work with small amounts
+			continue
 		}
 		// a spelling of the same number that is not the canonical one ("0450", "+450")
 		if z, ok := new(big.Int).SetString(o.Amt, 10); ok && z.Sign() >= 0 && !strings.HasPrefix(o.Amt, "-") && rng.Intn(5) == 0 {
@@ -421,7 +449,7 @@ func c13IDNum(s string) int {
 
 func genC13(c *Ctx) error {
 	c.ShardSize = 12
-	c.Notes["rule"] = "each case: fresh chaincode, 3 addresses funded with token and allowed balances; 12-30 signed lock/unlock requests by the admin (sometimes by others) through real batches: new ids (every second one differs from its neighbour only by white space at an end), duplicate ids, unknown ids, amounts 0, cur-1, cur, cur+1, balance, balance+1, negative and non-numeric, amounts spelled with leading zeros or a plus sign, wrong family, missing token; lock requests without an id sent as tasks whose task id (the default lock id on that route) is a chosen, often used, id; a lock that follows, in ONE task list or batch, a lock under an id that cannot become a ledger key (refused after the balance move has begun); two unlocks of one lock (a part, then the rest or one more / less) in ONE executeTasks request, the state between them taken from a run of the list cut after the first task on a copy of the ledger; 1 in 8 histories also unlock naming a foreign address (outside the property's quantifier; only correspondence is checked). Observed after every request: error class, all balances, all lock records. Non-trivial: >= 3 successful requests."
+	c.Notes["rule"] = "each case: fresh chaincode, 3 addresses funded with token and allowed balances; 12-30 signed lock/unlock requests by the admin (sometimes by others) through real batches: one history in three with a lock beyond 2^64 unlocked in steps that leave exact multiples of 2^64; new ids (every second one differs from its neighbour only by white space at an end), duplicate ids, unknown ids, amounts 0, cur-1, cur, cur+1, balance, balance+1, negative and non-numeric, amounts spelled with leading zeros or a plus sign, wrong family, missing token; lock requests without an id sent as tasks whose task id (the default lock id on that route) is a chosen, often used, id; a lock that follows, in ONE task list or batch, a lock under an id that cannot become a ledger key (refused after the balance move has begun); two unlocks of one lock (a part, then the rest or one more / less) in ONE executeTasks request, the state between them taken from a run of the list cut after the first task on a copy of the ledger; 1 in 8 histories also unlock naming a foreign address (outside the property's quantifier; only correspondence is checked). Observed after every request: error class, all balances, all lock records. Non-trivial: >= 3 successful requests."
 	n := c.N(150, 3000)
 	for i := 0; i < n; i++ {
 		if err := c13Case(c); err != nil {
